@@ -10,9 +10,14 @@ type MainFinalizerPlanner struct {
 	IsMatrix bool
 	IsFinal  bool
 	Alias    string
+	// WITH objects shared by the planners below; each is valid for one Process call only
+	Caches []**sql.With
 }
 
 func (m *MainFinalizerPlanner) Process(ctx *shared.PlannerContext) (sql.ISelect, error) {
+	for _, c := range m.Caches {
+		*c = nil
+	}
 	req, err := m.Main.Process(ctx)
 	if err != nil {
 		return nil, err
